@@ -118,12 +118,13 @@ def run_case(case, workdir):
                 db.close()
                 obs.append(("none",))
             elif kind == "seek":
-                lo, nxt = 0, 0
+                lo, nxt, present = 0, 0, None
                 if os.path.exists(uri):
                     db = sqlite3.connect(uri)
                     try:
                         r = db.execute("SELECT min(msgid) FROM hermesmessages").fetchone()
                         lo = r[0] or 0
+                        present = db.execute("SELECT count(*) FROM hermesmessages WHERE msgid = ?", (op[1],)).fetchone()[0] > 0
                         r = db.execute("SELECT seq FROM sqlite_sequence WHERE name='hermesmessages'").fetchone()
                         nxt = (r[0] + 1) if r else 0
                     except sqlite3.Error:
@@ -132,7 +133,8 @@ def run_case(case, workdir):
                 truth.append((lo, nxt))
                 try:
                     cons.seek(op[1])
-                    obs.append(("seek", "ok"))
+                    # 4th field: the sought offset lies strictly inside the retained range but is absent (a hole)
+                    obs.append(("seek", "ok", present, bool(present is False and lo and lo < op[1] < nxt)))
                 except IndexError:
                     obs.append(("seek", "index"))
                 except IOError:
